@@ -1,6 +1,8 @@
 package checks
 
 import (
+	"crypto/ecdsa"
+	"crypto/x509"
 	"fmt"
 	"sort"
 	"strings"
@@ -212,6 +214,9 @@ func c10Enumerate(tier string, yield func(any)) {
 				// the entity to be replaced holds a certificate but no private key (request-based / key stripped)
 				yield(&c10Case{Kind: "consent", Hier: hier, Toggles: []int{5}, Answer: a, Pre: 1})
 				yield(&c10Case{Kind: "consent", Hier: hier, Toggles: []int{}, Answer: a, Pre: 2})
+				for pre := 3; pre <= 6; pre++ {
+					yield(&c10Case{Kind: "consent", Hier: hier, Toggles: []int{}, Answer: a, Pre: pre})
+				}
 			}
 		}
 	}
@@ -425,6 +430,36 @@ func c10Consent(x *engine.Ctx, c *c10Case) {
 			nb = append(nb, refx509.EncodePem("CERTIFICATE", pf.CertDER)...)
 			w.Put(p, nb)
 		}
+	}
+	if c.Pre >= 3 {
+		// the file that is to be replaced holds its certificate in a layout other tools leave behind
+		root = d.Certs[len(d.Certs)-1]
+		p := ArtifactPath(root.Path)
+		pf := refx509.SplitPem(w.Files[p].Data)
+		if pf.HashLine == nil || pf.CertDER == nil || pf.KeyDER == nil {
+			x.Outcome("consent: last entity has no complete artifact to decorate")
+			return
+		}
+		hash := []byte("#HASH:" + *pf.HashLine + "\n")
+		certB, keyB := refx509.EncodePem("CERTIFICATE", pf.CertDER), refx509.EncodePem("PRIVATE KEY", pf.KeyDER)
+		var nb []byte
+		switch c.Pre {
+		case 3: // blank line at the end
+			nb = append(append(append(append(nb, hash...), certB...), keyB...), '\n')
+		case 4: // a SEC1 key block (not PKCS#8) in front of the certificate
+			k, err := x509.ParsePKCS8PrivateKey(FixtureKeyDER("P-256-0"))
+			if err != nil {
+				x.Cap("fixture: " + err.Error())
+				return
+			}
+			sec1, _ := x509.MarshalECPrivateKey(k.(*ecdsa.PrivateKey))
+			nb = append(append(nb, refx509.EncodePem("EC PRIVATE KEY", sec1)...), certB...)
+		case 5: // hash line last
+			nb = append(append(append(nb, certB...), keyB...), hash...)
+		case 6: // hash line, key first, then certificate, then a remark
+			nb = append(append(append(append(nb, hash...), keyB...), certB...), []byte("exported by another tool\n")...)
+		}
+		w.PutAt(p, nb, w.Files[p].Tick)
 	}
 	root.Subject = "CN=Entity renamed, O=C10"
 	w.Put(root.Path, RenderCfg(root.Path, root.Tree()))
